@@ -429,6 +429,11 @@ func (s *session) EnqueueBytesAndSend(msg []byte) {
 	s.sendMutex.Lock()
 	defer s.sendMutex.Unlock()
 
+	if !s.IsLoggedOn() {
+		// Same rule as SendAppMessages: queued first-time messages stay persisted, they do not go out with a replay.
+		s.dropQueued()
+	}
+
 	s.toSend = append(s.toSend, msg)
 	s.sendQueued(true)
 }
